@@ -803,9 +803,11 @@ func (r *run) checkInnocent(m *Model) {
 		if ka == 0 {
 			continue
 		}
-		lastUp := c.LastUpVT
+		lastUp := c.OpenVT
 		for _, t := range c.UpVT {
-			if t <= bcVT {
+			// (bytes sent at the very instant of the close tie with the
+			// deadline timer: they do not count as earlier activity)
+			if t < bcVT {
 				lastUp = t
 			}
 		}
